@@ -27,12 +27,16 @@ contract('ikesa.IkeSa.generate_delete_ike_sa_request', returns=MSG, props=['C13'
 # sequence of byte strings (Seq(Seq(Int))), which z3 reports as incomplete and leaves undecided
 contract('ikesa.IkeSa.generate_delete_child_sa_request', params={'child_sa': CH}, returns=MSG, verify=False,
          props=['C13', 'C08', 'C09', 'C10'],
-         requires=['inv_ikesa(self)', '0 <= child_sa.proposal.protocol_id <= 255', 'len(child_sa.inbound_spi) <= 255'],
+         # the state assertion comes first: outside ESTABLISHED nothing else is evaluated
+         requires=['implies(self.state == 10, inv_ikesa(self) and 0 <= child_sa.proposal.protocol_id <= 255 '
+                   'and len(child_sa.inbound_spi) <= 255)'],
          modifies=GEN_MOD,
          raises={'AssertionError': 'self.state != 10'},
          ensures={'request': REQ, 'trace': 'trace == old(trace)', 'state': 'self.state == 14',
                   'deleting': 'self.deleting_child_sa == child_sa', 'from': 'old(self.state) == 10',
                   'inv': 'inv_ikesa(self)'})
+
+CONTRACTS['ikesa.IkeSa.generate_delete_child_sa_request'].exc_ensures = ['nothing_changed()']
 
 # IKE_SA rekey request: allocates the successor and runs the IKE negotiation generator (ASSUMED)
 c = contract('ikesa.IkeSa.generate_rekey_ike_sa_request', returns=MSG, props=['C13'], verify=False,
